@@ -9,6 +9,7 @@ import (
 	"encoding/base64"
 	"encoding/json"
 	"fmt"
+	"net/url"
 	"sort"
 	"strings"
 	"sync"
@@ -127,9 +128,15 @@ func genC17Doc(t *rapid.T) *c17Doc {
 		// did-go only accepts absolute URIs here
 		seen := map[string]bool{}
 		for i, n := 0, rapid.IntRange(1, 2).Draw(t, "naka"); i < n; i++ {
-			u := rapid.SampledFrom([]string{"https://example.com/a", "did:example:123", "https://a.b/c?d=e#f", "urn:uuid:6ba7b810-9dad-11d1-80b4-00c04fd430c8"}).Draw(t, "akaURI")
-			if !seen[u] {
-				seen[u] = true
+			// ... among them spellings that a URI parser would write differently (the document carries them as supplied)
+			u := rapid.SampledFrom([]string{"https://example.com/a", "did:example:123", "https://a.b/c?d=e#f", "urn:uuid:6ba7b810-9dad-11d1-80b4-00c04fd430c8",
+				"HTTP://Upper.example/me", "https://example.com/profile#", "https://example.com/zo\u00eb", "https://example.com/zo%C3%AB", "https://example.com/users/Alice", "https://example.com/x?"}).Draw(t, "akaURI")
+			norm := u
+			if pu, err := url.Parse(u); err == nil {
+				norm = pu.String()
+			}
+			if !seen[norm] {
+				seen[norm] = true
 				d.aka = append(d.aka, u)
 			}
 		}
@@ -569,6 +576,17 @@ func TestC17_LongForm(t *testing.T) {
 		mustReject("short-form DID", ns+":"+suffix)
 		otherSuffix := refHash(map[string]interface{}{"other": "suffix data"}, 18)
 		mustReject("DID whose suffix belongs to other suffix data", ns+":"+otherSuffix+":"+state)
+		// text in front of the DID: it does not begin with the handler's namespace any more, wherever the namespace occurs later
+		{
+			prefix := rapid.SampledFrom([]string{"x", " ", "did:web:", "did:" + method + "x:", "urn:", "did:", ":", "\n", "did:" + method + ";", "#"}).Draw(t, "textInFront")
+			if rapid.IntRange(0, 3).Draw(t, "randomTextInFront") == 0 {
+				prefix = genString(t, 3) + prefix
+			}
+			if bad := prefix + did; !strings.HasPrefix(bad, ns+":") {
+				mustReject(fmt.Sprintf("DID with %q in front of it", prefix), bad)
+				st.Label("text-in-front")
+			}
+		}
 		// namespaces related by prefix
 		for _, om := range []string{"ion", "ionx", "io", "i", "orb", "a1", "a", "a12"} {
 			if om == method || strings.HasPrefix(method, om+":") || strings.HasPrefix(om, method+":") {
